@@ -104,5 +104,9 @@ if __name__ == '__main__':
         sys.exit(detect(sys.argv[2], sys.argv[3] if len(sys.argv) > 3 else 'quick'))
     elif cmd == 'detect-all':
         for n in sorted(os.listdir(os.path.join(ROOT, 'seeded'))):
-            if os.path.exists(os.path.join(ROOT, 'seeded', n, 'meta.json')):
+            mp = os.path.join(ROOT, 'seeded', n, 'meta.json')
+            if os.path.exists(mp):
+                if json.load(open(mp)).get('superseded'):
+                    print(n, 'superseded (no longer applies to /repo): skipped', flush=True)
+                    continue
                 detect(n, sys.argv[2] if len(sys.argv) > 2 else 'quick')
